@@ -34,7 +34,13 @@ pub fn gen(tier: &str, seed: u64, emit: &mut dyn FnMut(String)) {
         for _ in 0..rng.below(3) { pd.extend(rand_desc(&mut rng)); }
         let ns = rng.below(6) as usize;
         let ss: Vec<(u8, u16, Vec<u8>)> = (0..ns).map(|_| { let mut d = vec![]; for _ in 0..rng.below(3) { d.extend(rand_desc(&mut rng)); } (rng.byte(), rng.below(0x2000) as u16, d) }).collect();
-        let mut b = pmt_body(rng.below(0x2000) as u16, &pd, &ss, &mut rng);
+        let mut ss = ss;
+        // entries that relate to one another: the same PID again (with the same or another type), the same type again,
+        // the PCR PID among the streams
+        let pcr = if !ss.is_empty() && rng.chance(1, 3) { ss[0].1 } else { rng.below(0x2000) as u16 };
+        if ss.len() >= 2 && rng.chance(1, 2) { let k = rng.range(1, ss.len() as u64 - 1) as usize;
+            match rng.below(3) { 0 => { ss[k].1 = ss[k - 1].1; } 1 => { ss[k].1 = ss[k - 1].1; ss[k].0 = ss[k - 1].0; } _ => { ss[k].0 = ss[k - 1].0; } } }
+        let mut b = pmt_body(pcr, &pd, &ss, &mut rng);
         match rng.below(5) { 0 => { let n = rng.below(5) as usize; let t = rng.bytes(n); b.extend(t); } 1 => { let k = rng.below(b.len() as u64 + 1) as usize; b.truncate(k); } _ => {} }
         emit(format!("PMT {}", hex(&b)));
     }
